@@ -20,7 +20,10 @@ prop("C15",
                 "structured rules) is hand-written; every sync step of the real code over harness/nf is compared with it "
                 "starting from the REAL prior dump (post-state and failure classes must be equal); the strict iptables / "
                 "ipset semantics are those of harness/nf (work package netfilter: checked against M6 and real iptables "
-                "1.8.9), restated here for the rule forms galaxy emits",
+                "1.8.9), restated here for the rule forms galaxy emits; the regenerated facts (sync order in Run and the "
+                "handlers, createIPSet guards, writeChains prefix filter, syncRules called unconditionally) are matched on "
+                "the canonical form of each function (tools/factgen/cmd/policy/norm.go, harmless/NORMALISE.md), so "
+                "behaviour-preserving rewrites do not break the tie",
      technique="Lean 4 theorems over an executable model + regenerated definitions (factgen) + differential "
                "correspondence per sync step from real prior states + monitors of the four clauses on real dumps",
      factgen=["policy"],
